@@ -251,7 +251,7 @@ impl Monitor for M {
                             let first_kind = kinds.first().copied().unwrap_or("none");
                             if args.len() != ts.len() {
                                 ctx.violation("one_argument_per_type", "len", || detail(format!("{} arguments", args.len())));
-                            } else if let Some(i) = (0..args.len()).find(|&i| args[i].type_info != ts[i]) {
+                            } else if let Some(i) = (0..args.len()).find(|&i| format!("{:?}", args[i].type_info) != format!("{:?}", ts[i])) {
                                 ctx.violation("type_echoed", kind_name(&ts[i].kind), || detail(format!("arg {} type {:?}", i, args[i].type_info)));
                             } else if args.iter().any(|a| a.name.is_some() || a.unit.is_some() || a.fixed_point.is_some()) {
                                 ctx.violation("no_name_unit_fixedpoint", first_kind, || detail("name/unit/fixed_point present".into()));
